@@ -475,7 +475,10 @@ class Interp:
             return cur[1]
         if k in ("elem", "bufelem"):
             region = cur[1]
-            return self.region_elem(region, ty)
+            v = self.region_elem(region, ty)
+            if region[0] == "ext" and is_int(v) and ty is not None and ty.get("k") == "uint" and ty.get("bits") == 8:
+                st.ghost[("last_input_byte",)] = v      # the most recently read input byte on this path (refined by later tests on it)
+            return v
         if k == "staticelem":
             v = self.static_elem(cur[1], ty if len(cur) == 3 else None)
             for fi in cur[3:]:
